@@ -531,6 +531,29 @@ pub fn run_solve(data: &Value) -> Vec<Line> {
                 if let Some((a, sc)) = res {
                     if j == 0 {
                         lines.push(Line::spec(&["C01", "C06", "C08"], "A", format!("{}#{}", it, fmt_assign(a)), format!("valid=true hard=true score={} room=true", sc)));
+                        // the quality figure recomputed from the assignment itself (solution_score.rs,
+                        // `AssignmentQualityInfo::from_caobab_assignment` / `get_quality`): the model computes the same
+                        // record, and it gives the figure `solution_quality` derives from the score
+                        use cdecao::caobab::solution_score as ss;
+                        let (courses, parts) = inst.build();
+                        let (u, f) = (7u32 + (sc % 5), 11u32 + (sc % 3));
+                        let got = catch(|| {
+                            let info = ss::AssignmentQualityInfo::from_caobab_assignment(&parts, &courses, a, u, f);
+                            (info.verif_dump(), info.get_quality().to_bits(), ss::solution_quality(*sc, &parts).to_bits())
+                        });
+                        match got {
+                            Err(e) => lines.push(Line::direct(&["C08", "C10"], false, format!("from_caobab_assignment panicked: {}", e))),
+                            Ok(((ni, pens), qbits, sqbits)) => {
+                                let num: usize = pens.iter().map(|x| *x as usize).sum();
+                                let den = pens.len() + ni;
+                                lines.push(Line::corr(&["C08"], "AQ", format!("{}#{}#{}#{}", it, fmt_assign(a), u, f),
+                                    format!("ni={} pens={} q={}/{}", ni, pens.iter().map(|x| x.to_string()).collect::<Vec<_>>().join(","), num, den)));
+                                let nodup = inst.parts.iter().all(|p| { let mut cs: Vec<usize> = p.choices.iter().map(|c| c.0).collect(); cs.sort(); cs.windows(2).all(|w| w[0] != w[1]) });
+                                let same = qbits == sqbits || (f32::from_bits(qbits).is_nan() && f32::from_bits(sqbits).is_nan());
+                                lines.push(Line::direct(&["C08"], !nodup || same,
+                                    format!("quality lack recomputed from the reported assignment ({} / {} = bits {:#x}) vs solution_quality of the reported score (bits {:#x})", num, den, qbits, sqbits)).trivial(!nodup));
+                            }
+                        }
                     }
                 }
                 // trace inclusion: replay the real run through the engine model on the real tree
